@@ -102,8 +102,21 @@ func stAssignment(name string) map[string][]*target.Target {
 	panic("unknown assignment " + name)
 }
 
+// a targets manager wired as in a real sidecar: every accepted assignment is handed to the injector, which
+// generates the configuration for jobs j1 and j2 only (the assignments name other jobs as well: the coordinator's
+// configuration may be ahead of the sidecar's).  The generated file goes to /dev/null, so that the file-size
+// limit of a case applies to the store alone.
 func stManager(dir string) *sidecar.TargetsManager {
-	return sidecar.NewTargetsManager(dir, prometheus.NewRegistry(), quietLog())
+	reg := prometheus.NewRegistry()
+	m := sidecar.NewTargetsManager(dir, reg, quietLog())
+	inj := sidecar.NewInjector("/dev/null", sidecar.InjectConfigOptions{ProxyURL: "http://127.0.0.1:8008"}, reg, quietLog())
+	cm := prom.NewConfigManager()
+	cm.AddReloadCallbacks(inj.ApplyConfig)
+	if err := cm.ReloadFromRaw([]byte(sideCfgYAML)); err != nil {
+		panic(err)
+	}
+	m.AddUpdateCallbacks(inj.UpdateTargets)
+	return m
 }
 
 // canonical form of what a manager holds, for comparison
